@@ -92,9 +92,43 @@ theorem row_kept_iff (ifNone : Bool) (ds : Table) (hasData : Bool) (today : Int)
     cases ds.jcellAt "data" i <;> simp [Cell.isNone]
   rcases hc with h | ⟨us, h⟩
   · simp [rowRuns, h, runExpiry]
-  · simp only [rowRuns, h, runExpiry, Bool.or_eq_false_iff, Bool.not_eq_false',
+  · have hr : runExpiry today (Cell.dt us) = decide (us ≥ today) := rfl
+    simp only [rowRuns, h, hr, Bool.or_eq_false_iff, Bool.not_eq_false',
       decide_eq_false_iff_not, Int.not_le, Cell.dt.injEq, exists_eq_left', Bool.and_eq_false_imp,
       hnone, and_assoc]
+
+/-- `runExpiry` through the date the cell spells: `None` recomputes, a spelled instant recomputes iff it is not before today -/
+theorem runExpiry_none (today : Int) : runExpiry today .none = true := rfl
+
+theorem runExpiry_of_date (today : Int) (c : Cell) (us : Int) (h : expiryDate c = some us) :
+    runExpiry today c = decide (us ≥ today) := by
+  cases c with
+  | none => simp [expiryDate] at h
+  | _ => simp only [runExpiry, h]
+
+/-- **`row_kept_iff` for every spelling of the expiry that `dt()` accepts** (review t2 V3; the code reads `dt(value) >= today`
+since fix 7ea4860): the expiry cell is `None` or spells an instant - a datetime, a date string such as `'2000-01-01'` /
+`'20000101'`, a number such as `20000101` - where "spells" is the INDEPENDENT C03 model of `dt` (`expiryDate` = `DateParse.dtStr`
+/ `num2dtQ`, proved about in Props/C03).  The row is kept exactly when a previous value column exists, the spelled instant is
+strictly before today and, with `if_none = True`, the previous value is not `None`. -/
+theorem row_kept_iff_spelled (ifNone : Bool) (ds : Table) (hasData : Bool) (today : Int) (i : Nat)
+    (hc : expiryCovered (ds.jcellAt "expiry" i) = true) :
+    rowRuns ifNone ds hasData today i = false ↔
+      hasData = true ∧ (ifNone = true → ds.jcellAt "data" i ≠ .none) ∧
+        ∃ us, expiryDate (ds.jcellAt "expiry" i) = some us ∧ us < today := by
+  have hnone : (ds.jcellAt "data" i).isNone = false ↔ ds.jcellAt "data" i ≠ .none := by
+    cases ds.jcellAt "data" i <;> simp [Cell.isNone]
+  simp only [expiryCovered, Bool.or_eq_true, beq_iff_eq, Option.isSome_iff_exists] at hc
+  rcases hc with h | ⟨us, h⟩
+  · simp [rowRuns, h, runExpiry, expiryDate]
+  · simp only [rowRuns, runExpiry_of_date today _ us h, h, Bool.or_eq_false_iff, Bool.not_eq_false',
+      decide_eq_false_iff_not, Int.not_le, Option.some.injEq, exists_eq_left', Bool.and_eq_false_imp,
+      hnone, and_assoc]
+
+/-- the spellings of review t2 V3 denote 2000-01-01 00:00 (730119 days after 0001-01-01) -/
+example : expiryDate (.str "2000-01-01") = some (730119 * 86400000000) ∧ expiryDate (.str "20000101") = some (730119 * 86400000000) ∧
+    expiryDate (.int 20000101) = some (730119 * 86400000000) ∧ expiryDate (.int 1) = none ∧ expiryDate (.bool true) = none := by
+  decide
 
 /-- **calls once**: a computed row contributes exactly one entry to the log, a kept row none -/
 theorem calls_once (ifNone : Bool) (f : List Cell → Val) (params : List String) (ds : Table)
@@ -768,6 +802,38 @@ theorem kept_has_previous {inputs : List (String × PInput)} {on : List String}
     cases hv
     rw [hcell] at hus
     cases hus
+
+/-- `kept_has_previous` for every expiry spelling `dt()` reads (`expiryCovered`: `None`, a datetime, a date string, a yyyymmdd
+number - review t2 V3): same statement, the kept row carries the value supplied for its key. -/
+theorem kept_has_previous_spelled {inputs : List (String × PInput)} {on : List String}
+    {defaults : List (String × Cell)} {ds : Table} (hs : JoinSpec inputs on defaults ds)
+    (dT eT : Table) (hd : ("data", dT) ∈ tableInputs inputs) (he : ("expiry", eT) ∈ tableInputs inputs)
+    (hdoff : "data" ∉ on) (heoff : "expiry" ∉ on) (hde : dfltOf defaults "expiry" = some .none)
+    (hud : dT.R.uniq on) (hue : eT.R.uniq on)
+    (hq : ∀ j, j < eT.nrows → eT.jcellAt (valueCol eT "expiry" on) j ≠ .none →
+      ∃ j', j' < dT.nrows ∧ keq on (dT.rowF j') (eT.rowF j))
+    (ifNone : Bool) (hasData : Bool) (today : Int) (i : Nat) (hi : i < ds.nrows)
+    (hc : expiryCovered (ds.jcellAt "expiry" i) = true)
+    (hk : rowRuns ifNone ds hasData today i = false) :
+    ∃ j, j < dT.nrows ∧ keq on (dT.rowF j) (ds.rowF i) ∧
+      ds.jcellAt "data" i = dT.jcellAt (valueCol dT "data" on) j := by
+  obtain ⟨_, _, us, hus, _⟩ := (row_kept_iff_spelled ifNone ds hasData today i hc).1 hk
+  have hnn : ds.jcellAt "expiry" i ≠ .none := by
+    intro h0; rw [h0] at hus; simp [expiryDate] at hus
+  have hve := join_value_at hs ("expiry", eT) he heoff i hi
+  have hvd := join_value_at hs ("data", dT) hd hdoff i hi
+  by_cases hex : ∃ j, j < eT.nrows ∧ keq on (eT.rowF j) (ds.rowF i)
+  · obtain ⟨je, hje, hke⟩ := hex
+    have hcell := hve.1 je hje hke hue
+    have hne : eT.jcellAt (valueCol eT "expiry" on) je ≠ .none := by
+      rw [← hcell]; exact hnn
+    obtain ⟨j', hj', hkj⟩ := hq je hje hne
+    have hkd : keq on (dT.rowF j') (ds.rowF i) := keq_trans hkj hke
+    exact ⟨j', hj', hkd, hvd.1 j' hj' hkd hud⟩
+  · obtain ⟨v, hv, hcell⟩ := hve.2 (fun j hj hk' => hex ⟨j, hj, hk'⟩)
+    rw [hde] at hv
+    cases hv
+    exact absurd hcell hnn
 
 /-- **clause "whose value is `f` applied to that key's values"**, per parameter: in row `i` of the joined table the argument
 handed to `f` for a parameter `p` that is a table input is that input's value at the row carrying row `i`'s key — or, when the
